@@ -87,6 +87,8 @@ namespace detail
 		template<typename genType>
 		GLM_FUNC_QUALIFIER static genType call(genType Source, genType Multiple)
 		{
+			if(Source == genType(0))
+				return Source; // Source - 1 would wrap
 			genType Tmp = Source - genType(1);
 			return Tmp + (Multiple - (Tmp % Multiple));
 		}
